@@ -136,3 +136,84 @@ Proof. vm_compute. reflexivity. Qed.
    is at least as old as the age at which the collector itself would run a deferred destruction *)
 Theorem threshold_covers_grace : EXPIRE_AFTER <= RECLAIM_AGE.
 Proof. unfold EXPIRE_AFTER, RECLAIM_AGE. lia. Qed.
+
+(* ---- the stamp written into a child (finding D13): the maximum, but never two epochs ahead.
+   [merged] alone can return the residue of c + 2 -- the alias of a stamp that is 14 epochs old (the window of
+   decode is [c - 13, c + 2]); a cascade that read the epoch one step earlier (c - 1) decodes that residue as
+   c - 14: ancient.  [child_stamp] (generated from the repaired source) clamps it to c + 1, which every
+   concurrent observer (its epoch is at least c - 1) decodes correctly. *)
+Lemma trans_next c : epoch_ok c -> m_trans EPOCH_WIDTH (modu_max_of c) (sext 64 c + 1) = -1.
+Proof.
+  intros Hc. unfold m_trans, modu_max_of, epoch_ok in *.
+  rewrite sext_small by (change (2 ^ (64 - 1)) with (2 ^ 63); lia).
+  replace (c + 1 - (c + 1 + 1)) with (-1) by lia. reflexivity.
+Qed.
+
+Lemma child_stamp_spec c a1 a2 a3 : epoch_ok c -> STAMP_CLAMPED = true ->
+  0 <= a1 < 16 -> 0 <= a2 < 16 -> 0 <= a3 < 16 -> a1 <= c + 2 -> a2 <= c + 2 -> a3 <= c + 2 ->
+  let m := merged c a1 a2 a3 in
+  (decode c (m mod 16) <= c + 1 -> child_stamp c a1 a2 a3 mod 16 = m mod 16) /\
+  (decode c (m mod 16) = c + 2 -> child_stamp c a1 a2 a3 mod 16 = (c + 1) mod 16).
+Proof.
+  intros Hc _ H1 H2 H3 L1 L2 L3 m.
+  assert (Hm : 0 <= m mod 16 < 16) by (apply Z.mod_pos_bound; lia).
+  (* merged is already a residue: m_inver ends with a remainder by 16 of a non-negative number *)
+  assert (Hmr : m = m mod 16).
+  { subst m. unfold merged, m_max, m_inver. change (Z.shiftl 1 EPOCH_WIDTH) with 16.
+    set (f := fold_left _ _ _).
+    assert (Hnn : forall a, 0 <= a < 16 -> a <= c + 2 -> 0 <= decode c a).
+    { intros a Ha Hl. pose proof (decode_window c a). destruct (Z_le_gt_dec 13 c); [lia|].
+      unfold decode. unfold epoch_ok in Hc. rewrite Z.mod_small; lia. }
+    assert (- (c + 2) <= f <= 0).
+    { subst f. cbn [fold_left]. change (Z.shiftl 1 EPOCH_WIDTH) with 16.
+      rewrite !(Z.rem_small _ 16) by lia. rewrite !trans_decode by assumption.
+      pose proof (decode_window c a1). pose proof (decode_window c a2). pose proof (decode_window c a3).
+      pose proof (Hnn a1 H1 L1). pose proof (Hnn a2 H2 L2). pose proof (Hnn a3 H3 L3).
+      unfold epoch_ok in Hc. lia. }
+    unfold modu_max_of, epoch_ok in *. rewrite sext_small by (change (2 ^ (64 - 1)) with (2 ^ 63); lia).
+    rewrite Z.rem_mod_nonneg by lia. rewrite Z.mod_mod by lia. reflexivity. }
+  pose proof (decode_window c (m mod 16)) as Hw.
+  assert (Hle : m mod 16 <= c + 2).
+  { destruct (Z_le_gt_dec 14 c) as [Hbig|Hsmall]; [lia|].
+    assert (Hdec : forall a, 0 <= a < 16 -> a <= c + 2 -> decode c a = a).
+    { intros a Ha Hl. unfold decode. unfold epoch_ok in Hc. rewrite Z.mod_small; lia. }
+    subst m. rewrite fold_max3 by assumption. rewrite !Hdec by assumption. rewrite Z.mod_small; lia. }
+  assert (Ht : m_trans EPOCH_WIDTH (modu_max_of c) m = decode c (m mod 16) - (c + 2)).
+  { rewrite Hmr at 1. apply trans_decode; assumption. }
+  unfold child_stamp. fold m. unfold m_le. rewrite trans_next by assumption. rewrite Ht.
+  split; intros Hd.
+  - destruct (Z.leb_spec (decode c (m mod 16) - (c + 2)) (-1)); [reflexivity | lia].
+  - destruct (Z.leb_spec (decode c (m mod 16) - (c + 2)) (-1)); [lia|].
+    change (Z.shiftl 1 EPOCH_WIDTH) with 16. unfold epoch_ok in Hc.
+    rewrite sext_small by (change (2 ^ (64 - 1)) with (2 ^ 63); lia).
+    rewrite Z.rem_mod_nonneg by lia. rewrite Z.mod_mod by lia. reflexivity.
+Qed.
+
+(* what the repair is for: the written stamp never decodes two epochs ahead, and it is the maximum of the three
+   stamps whenever that maximum is not an alias *)
+Theorem child_stamp_not_ahead c a1 a2 a3 : epoch_ok c -> STAMP_CLAMPED = true -> 14 <= c ->
+  0 <= a1 < 16 -> 0 <= a2 < 16 -> 0 <= a3 < 16 ->
+  decode c (child_stamp c a1 a2 a3 mod 16) <= c + 1 /\
+  decode c (child_stamp c a1 a2 a3 mod 16) =
+    Z.min (c + 1) (Z.max (decode c a1) (Z.max (decode c a2) (decode c a3))).
+Proof.
+  intros Hc Hcl Hbig H1 H2 H3.
+  assert (L1 : a1 <= c + 2) by lia. assert (L2 : a2 <= c + 2) by lia. assert (L3 : a3 <= c + 2) by lia.
+  destruct (child_stamp_spec c a1 a2 a3 Hc Hcl H1 H2 H3 L1 L2 L3) as [S1 S2].
+  pose proof (merged_decode c a1 a2 a3 Hc H1 H2 H3 L1 L2 L3) as Hd.
+  pose proof (decode_window c (merged c a1 a2 a3 mod 16)) as Hw.
+  destruct (Z_le_gt_dec (decode c (merged c a1 a2 a3 mod 16)) (c + 1)) as [Hle|Hgt].
+  - rewrite (S1 Hle). rewrite Hd in *. split; lia.
+  - assert (He : decode c (merged c a1 a2 a3 mod 16) = c + 2) by lia.
+    rewrite (S2 He). rewrite decode_exact by lia. rewrite Hd in He. split; lia.
+Qed.
+
+(* old inputs: the clamp does not interfere *)
+Lemma child_stamp_of_old c a1 a2 a3 : epoch_ok c -> STAMP_CLAMPED = true ->
+  0 <= a1 < 16 -> 0 <= a2 < 16 -> 0 <= a3 < 16 -> a1 <= c + 2 -> a2 <= c + 2 -> a3 <= c + 2 ->
+  decode c (merged c a1 a2 a3 mod 16) <= c + 1 ->
+  child_stamp c a1 a2 a3 mod 16 = merged c a1 a2 a3 mod 16.
+Proof. intros. apply child_stamp_spec; assumption. Qed.
+
+Example stamp_clamped_now : STAMP_CLAMPED = true.
+Proof. reflexivity. Qed.
